@@ -30,6 +30,20 @@ func TestDbgParSeeds(t *testing.T) {
 		t.Fatal(err)
 	}
 	n, _ := strconv.Atoi(os.Getenv("VERIF_DBG_N"))
+	if n == 0 {
+		// the scenario as it is
+		sc := &Scenario{}
+		if err = json.Unmarshal(rf.Scenario, sc); err != nil {
+			t.Fatal(err)
+		}
+		kc := dbgCtx()
+		err = Run(t, sc, kc)
+		for _, l := range kc.Log() {
+			fmt.Println("  |", l)
+		}
+		fmt.Println("result:", err)
+		return
+	}
 	seen := map[string]bool{}
 	for seed := 0; seed < n; seed++ {
 		for _, pct := range []int{20, 50, 80} {
